@@ -674,7 +674,7 @@ pub fn run_game(ctx: &Ctx, rep: &mut Report, c10: bool, c11: bool) {
     let rev: Vec<RPos> = reversible_starts().iter().map(|f| RPos::from_fen(f).unwrap()).collect();
     let promo: Vec<RPos> = promotion_starts().iter().map(|f| RPos::from_fen(f).unwrap()).collect();
     let n = if c11 { ctx.budget(2500, 25_000, 1, 60) } else { ctx.budget(12_000, 150_000, 2, 200) };
-    ctx.cases(rep, "games", n, |gid, rng, rep| {
+    ctx.cases(rep, "games", n, |_gid, rng, rep| {
         let (start, pol, len) = if c11 {
             match rng.below(10) {
                 8 | 9 => {
